@@ -87,6 +87,15 @@ class OsShim:
         its = _items_of(p)
         if any(bool(in_set(c, (0,))) for c in its):
             raise ValueError("embedded null byte")
+        seg = 0
+        for c in its:
+            if bool(in_set(c, (47,))):
+                seg = 0
+            else:
+                seg += 1
+                if seg > 255:
+                    import errno
+                    raise OSError(errno.ENAMETOOLONG, "File name too long")
         q = p
         must_dir = False
         while len(q) > 1 and q.endswith("/"):
@@ -486,6 +495,8 @@ def jobs(tier: str):
                 out.append(dict(name=f"{iface}/{app}/{n}+index", iface=iface, app=app, n=n, post="/index.html", weight=4 ** n))
             for n in range(0, (5 if thorough else 4) + 1):
                 out.append(dict(name=f"{iface}/{app}/{n}+html", iface=iface, app=app, n=n, post=".html", weight=4 ** n))
+            # a path segment longer than NAME_MAX (the concrete prefix fills it; the symbolic characters decide where it ends)
+            out.append(dict(name=f"{iface}/{app}/longname+2", iface=iface, app=app, n=2, pre="/" + "a" * 254, weight=20))
     out.append(dict(name="twin", iface="wsgi", app="files", n=2, twin=True))
     return out
 
